@@ -15,6 +15,7 @@ func runC17(r *Run) {
 		client     int
 		major, min byte
 		ir         *implRun
+		coalesced  bool
 	}
 	var cases []*hcase
 	var clients []int
@@ -40,10 +41,25 @@ func runC17(r *Run) {
 		}
 	}
 	var lines []string
-	for _, c := range cases {
+	for ci, c := range cases {
 		pkt := mkPacket(tHandshake, bodyHandshake(c.major, c.min, r.Rng.Intn(3), c.client))
 		// a second packet shows whether the loop went on
-		c.ir = runProcess(c.cfg, [][]byte{pkt, mkPacket(0x33, nil)}, nil)
+		switch {
+		case ci%4 == 1:
+			// the handshake and the packet after it arrive in one transport read (a pipelining client):
+			// the answer must not depend on what follows
+			c.coalesced = true
+			next := mkPacket(0x33, []byte("0123456789abcdef0123456789abcdef"))
+			c.ir = runProcess(c.cfg, [][]byte{append(append([]byte{}, pkt...), next...)}, nil)
+		case ci%8 == 2:
+			c.ir = runProcess(c.cfg, [][]byte{pkt[:5], pkt[5:], mkPacket(0x33, nil)}, nil)
+			// present the fragments as one element to the checks below
+			if len(c.ir.elems) >= 2 {
+				c.ir.elems = c.ir.elems[1:]
+			}
+		default:
+			c.ir = runProcess(c.cfg, [][]byte{pkt, mkPacket(0x33, nil)}, nil)
+		}
 		lines = append(lines, fmt.Sprintf("matchauth token=%s sc=%s client=%d", b01(c.cfg.token), b01(c.cfg.sc), c.client))
 		lines = append(lines, "decode pkt="+hx(firstWrite(c.ir)))
 	}
@@ -63,8 +79,8 @@ func runC17(r *Run) {
 		want := (caps == 0 && c.client == 0) || caps&c.client != 0
 		model := ans[2*i]
 		dec := kv(ans[2*i+1])
-		rep := fmt.Sprintf("server: token=%v smartcard=%v (caps %d)  client ext auth=%d (0x%x) version bytes %d %d\nresponse: %s\ndecoded: %s\nloop went on to the next packet: %v\nmodel matchAuth: %s\n",
-			c.cfg.token, c.cfg.sc, caps, c.client, c.client, c.major, c.min, hx(firstWrite(c.ir)), ans[2*i+1], len(c.ir.elems) == 2, model)
+		rep := fmt.Sprintf("server: token=%v smartcard=%v (caps %d)  client ext auth=%d (0x%x) version bytes %d %d\nresponse: %s\ndecoded: %s\nloop went on to the next packet: %v\nhandshake and the next packet delivered in one read: %v\nmodel matchAuth: %s\n",
+			c.cfg.token, c.cfg.sc, caps, c.client, c.client, c.major, c.min, hx(firstWrite(c.ir)), ans[2*i+1], len(c.ir.elems) == 2, c.coalesced, model)
 		r.Count(fmt.Sprintf("%d/%d/%d/%d", caps, c.client, c.major, c.min))
 		if i%9973 == 0 {
 			r.Sample(map[string]interface{}{"server_caps": caps, "client": c.client, "decoded_response": ans[2*i+1], "model": model})
@@ -80,6 +96,9 @@ func runC17(r *Run) {
 		st := dec["st"]
 		wentOn := len(c.ir.elems) == 2
 		ok := st == "0"
+		if c.coalesced {
+			wentOn = ok // not observable when both packets came in one read
+		}
 		if ok != want {
 			r.Violation("c17-iff", "handshake outcome differs from the negotiation rule", rep)
 			continue
